@@ -24,6 +24,8 @@ func C06(c *Ctx) {
 	r.Rule("R06.8", "removal only by an accepted receipt, under the group's id: in setTimeoutList the removal-map update lies behind the edges 'not invalid' and 'not begin-failed' of the receipt transaction (a rejected receipt must leave the request listed); in the transaction manager every add / remove of a timeout-list entry names the id of the group record (the argument of GlobalTxInfoKey in the same function, or the parameter that callers fill with it) and the height stored in that record.")
 	r.Rule("R06.4", "write before flush: every ledger write of block post-processing (setTimeoutList, setTimeoutRollback, transaction application) is sequenced before FlushDirtyData; nothing writes between FlushDirtyData and PersistBlockData.")
 	r.Rule("R06.5", "expiry applies the list of the current height only: setTimeoutRollback and getTimeoutIBTPsMap iterate getTimeoutList(height) with their own height parameter; the timeout functions read no executor field other than ledger/config/logger (nothing in memory across restarts).")
+	r.Rule("R06.11", "one decision about the timeout: when the interchain contract overrides the timeout it hands to the transaction manager (beginTransaction zeroes it on the hub that does not own the timeout of a transaction between two BitXHubs, the record then carries Height = MaxUint64), the registration of the request in setTimeoutList lies behind the edge record.Height != MaxUint64 of the stored record; otherwise the executor lists what the contract decided not to time out, the receipt cannot find the id, and the finished transaction is rolled back at that height.")
+	r.Rule("R06.12", "the destination hub owns the timeout: the comparison in beginTransaction that takes the timeout away compares the current hub with the hub of ibtp.From (ParseFrom), never with the hub of ibtp.To - the destination hub is where the request executes and must be the one that lists it and rolls it back at the timeout height.")
 	r.NotDecided = append(r.NotDecided, "'exactly once in that block's notifications' over restarts beyond 'state is ledger-borne'; numeric adequacy of the overflow guard")
 
 	pe := c.fn("R06.1", execPrefix+"processExecuteEvent")
@@ -115,6 +117,131 @@ func C06(c *Ctx) {
 		}
 		return false, 0
 	})
+	// R06.11: the contract may take the timeout away (beginTransaction zeroes it on the hub that does not own the
+	// timeout of a transaction between two BitXHubs; the record then has Height = MaxUint64). When it does, the
+	// executor's registration has to honour the recorded decision.
+	override := ""
+	if bt := c.fn("R06.11", imPrefix+"beginTransaction"); bt != nil {
+		for _, call := range core.Calls(bt) {
+			if !strings.HasSuffix(core.CalleeName(call), "pb.Uint64") || len(call.Common().Args) == 0 {
+				continue
+			}
+			hasConst, hasOther := false, false
+			for _, o := range core.RetOrigins(call.Common().Args[0]) {
+				if _, isC := core.Strip(o.V).(*ssa.Const); isC {
+					hasConst = true
+				} else {
+					hasOther = true
+				}
+			}
+			if hasConst && hasOther {
+				override = c.P.Pos(call.Pos())
+			}
+		}
+	}
+	// R06.12: which hub owns the timeout
+	if bt := c.fn("R06.12", imPrefix+"beginTransaction"); bt != nil && override != "" {
+		nOwn := 0
+		for _, b := range bt.Blocks {
+			ifi := core.IfOf(b)
+			if ifi == nil {
+				continue
+			}
+			bo, ok := ifi.Cond.(*ssa.BinOp)
+			if !ok || (bo.Op != token.EQL && bo.Op != token.NEQ) {
+				continue
+			}
+			isCur := func(v ssa.Value) bool {
+				return core.Mentions(v, func(w ssa.Value) bool {
+					cc, ok := w.(*ssa.Call)
+					return ok && strings.HasSuffix(core.CalleeName(cc), "getBitXHubID")
+				})
+			}
+			hubOf := func(v ssa.Value) string {
+				ex, ok := core.Strip(v).(*ssa.Extract)
+				if !ok || ex.Index != 0 {
+					return ""
+				}
+				cc, ok := ex.Tuple.(*ssa.Call)
+				if !ok || core.CalleeObj(cc) == nil {
+					return ""
+				}
+				return core.CalleeObj(cc).Name()
+			}
+			var side string
+			switch {
+			case isCur(bo.X):
+				side = hubOf(bo.Y)
+			case isCur(bo.Y):
+				side = hubOf(bo.X)
+			default:
+				continue
+			}
+			if side != "ParseFrom" && side != "ParseTo" {
+				continue
+			}
+			nOwn++
+			r.Check(side == "ParseFrom", "R06.12", fmt.Sprintf("beginTransaction: timeout removed on the source hub only #%d", nOwn), c.P.Pos(ifi.Cond.Pos()), "the current hub is compared with the hub of ibtp.From",
+				"the timeout of a transaction between two BitXHubs is taken away on the hub of ibtp.To: the destination hub, where the destination appchain executes the request, never times it out (the request stays BEGIN for ever) and the source hub rolls back on its own")
+		}
+		r.Floor("R06.12", "hub comparisons deciding the timeout owner", nOwn, 1)
+	}
+	if override == "" {
+		r.OK("R06.11", "beginTransaction hands the IBTP's own timeout to the transaction manager", "", "no override of the timeout on the contract side: the executor's computation from ibtp.TimeoutHeight agrees by construction")
+	} else {
+		es := condEdges(stl, func(f core.Fact, ifi *ssa.If) (bool, int) {
+			if f.Kind != core.FCmp && f.Kind != core.FEqConst {
+				return false, 0
+			}
+			isH := func(v ssa.Value) bool { return v != nil && core.Mentions(v, fieldLoad("TransactionRecord", "Height")) }
+			isMax := func(v ssa.Value) bool {
+				k, ok := core.Strip(v).(*ssa.Const)
+				return ok && k.Value != nil && k.Value.ExactString() == "18446744073709551615"
+			}
+			var other ssa.Value
+			switch {
+			case isH(f.Subject):
+				other = f.Other
+			case isH(f.Other):
+				other = f.Subject
+			default:
+				return false, 0
+			}
+			if !(other != nil && isMax(other)) && f.Const != "18446744073709551615" {
+				return false, 0
+			}
+			// the edge on which Height != MaxUint64
+			e := holdsEdge(f)
+			if f.Op == token.EQL || f.Kind == core.FEqConst {
+				e = 1 - e
+			}
+			return true, e
+		})
+		if es.Len() > 0 {
+			// a request whose record cannot be read at all (no record written: nothing was decided) is listed as before
+			es.Merge(condEdges(stl, func(f core.Fact, ifi *ssa.If) (bool, int) {
+				if f.Kind != core.FBool {
+					return false, 0
+				}
+				ex, ok := f.Subject.(*ssa.Extract)
+				if !ok || ex.Index != 0 {
+					return false, 0
+				}
+				cc, ok := ex.Tuple.(*ssa.Call)
+				if !ok || core.CalleeObj(cc) == nil || core.CalleeObj(cc).Name() != "GetState" {
+					return false, 0
+				}
+				return true, 1 - holdsEdge(f)
+			}))
+		}
+		if es.Len() == 0 {
+			for _, in := range addUpd {
+				r.Bad("R06.11", "setTimeoutList: registration honours the recorded timeout decision", c.P.Pos(in.Pos()), "the interchain contract overrides the timeout of a request (beginTransaction, "+override+": zero on the hub that does not own the timeout, recorded as Height = MaxUint64), but setTimeoutList lists the request under height + ibtp.TimeoutHeight without consulting the record: the accepted receipt looks for the id under the recorded height, the id stays listed, and at its timeout height the finished transaction is overwritten with BEGIN_ROLLBACK")
+			}
+		} else {
+			c.behindEdges("R06.11", "setTimeoutList", stl, es, isAdd, "record.Height != MaxUint64", "timeout registration")
+		}
+	}
 	guard("ibtp.Group == nil", func(f core.Fact, ifi *ssa.If) (bool, int) {
 		if f.Kind == core.FNil && core.Mentions(f.Subject, fieldLoad("IBTP", "Group")) {
 			return true, holdsEdge(f)
@@ -331,6 +458,30 @@ func (c *Ctx) timeoutListInvariant(rRemoval, rEncoding, rAccum string) {
 	r.Floor(rRemoval, "removal updates in setTimeoutList", nRemInner, 2)
 	// R06.3
 	nU := 0
+	// the receipt branch: what is reachable only across Category() == RESPONSE
+	respEdges := condEdges(stl, func(f core.Fact, ifi *ssa.If) (bool, int) {
+		if f.Kind != core.FCmp && f.Kind != core.FEqConst {
+			return false, 0
+		}
+		isCat := func(v ssa.Value) bool {
+			cl, ok := v.(*ssa.Call)
+			return ok && strings.HasSuffix(core.CalleeName(cl), "pb.IBTP).Category")
+		}
+		var other ssa.Value
+		switch {
+		case f.Subject != nil && isCat(core.Strip(f.Subject)):
+			other = f.Other
+		case f.Other != nil && isCat(core.Strip(f.Other)):
+			other = f.Subject
+		default:
+			return false, 0
+		}
+		if other != nil && enumName(core.Strip(other)) == "IBTP_RESPONSE" {
+			return true, holdsEdge(f)
+		}
+		return false, 0
+	})
+	outsideReceipt := core.Reach([]core.Point{core.EntryOf(stl)}, nil, core.CutOf(respEdges))
 	for _, call := range core.Calls(stl) {
 		cl, ok := call.(*ssa.Call)
 		if !ok {
@@ -339,6 +490,9 @@ func (c *Ctx) timeoutListInvariant(rRemoval, rEncoding, rAccum string) {
 		o := core.CalleeObj(call)
 		if o == nil || o.Name() != "Unmarshal" || !strings.HasSuffix(core.CalleeName(call), "pb.TransactionRecord).Unmarshal") {
 			continue
+		}
+		if respEdges.Len() > 0 && outsideReceipt.Has(cl) {
+			continue // a record decoded outside the receipt branch (the request branch consults it for R06.11)
 		}
 		nU++
 		// from the no-error edge of Unmarshal: every path to the next loop iteration / nil return passes a removal update
@@ -507,7 +661,7 @@ func (c *Ctx) timeoutListInvariant(rRemoval, rEncoding, rAccum string) {
 	r.Floor("R06.9", "loop-carried list accumulators", nFold, 1)
 
 	// R06.10 expiry sees the maintained list
-	r.Rule("R06.10", "expiry sees the maintained list: in processExecuteEvent everything that reads the timeout list of the current height for expiry (getTimeoutIBTPsMap, setTimeoutRollback) is preceded on every path by setTimeoutList of the same block, so a receipt accepted in the very block in which its request expires is removed first; inside setTimeoutList no addition write-back (writeToStr side) is reachable after a removal write-back (removeFromStr side), so a request and its receipt accepted in one block cancel out.")
+	r.Rule("R06.10", "expiry sees the maintained list: in processExecuteEvent everything that reads the timeout list of the current height for expiry (getTimeoutIBTPsMap, setTimeoutRollback) is preceded on every path by setTimeoutList of the same block, so a receipt accepted in the very block in which its request expires is removed first; inside setTimeoutList no addition write-back (writeToStr side) is reachable after a removal write-back (removeFromStr side), so a request and its receipt accepted in one block cancel out; getTimeoutIBTPsMap, which reads the stored child statuses to decide which chains are told to roll back, runs before setTimeoutRollback overwrites them.")
 	pe10 := c.fn("R06.10", "internal/executor.(*BlockExecutor).processExecuteEvent")
 	stl10 := c.fn("R06.10", "internal/executor.(*BlockExecutor).setTimeoutList")
 	str10 := c.fn("R06.10", "internal/executor.(*BlockExecutor).setTimeoutRollback")
@@ -523,6 +677,7 @@ func (c *Ctx) timeoutListInvariant(rRemoval, rEncoding, rAccum string) {
 		}, "setTimeoutList (this block's receipts removed, requests added)", "expiry of the current height")
 		r.Floor("R06.10", "expiry reads in processExecuteEvent", n, 2)
 	}
+	c.expiryReadBeforeOverwrite("R06.10")
 	wts := c.fn("R06.10", "internal/executor.(*BlockExecutor).writeToStr")
 	rfs := c.fn("R06.10", "internal/executor.(*BlockExecutor).removeFromStr")
 	if stl10 != nil && wts != nil && rfs != nil {
@@ -710,4 +865,24 @@ func (c *Ctx) foldRestarts(rule string, fn *ssa.Function) int {
 		}
 	}
 	return n
+}
+
+
+// expiryReadBeforeOverwrite (R06.10 / R05.5): in processExecuteEvent the notification set of the expiring
+// height is computed from the stored statuses before setTimeoutRollback overwrites them.
+func (c *Ctx) expiryReadBeforeOverwrite(rule string) {
+	pe := c.fn(rule, "internal/executor.(*BlockExecutor).processExecuteEvent")
+	str := c.fn(rule, "internal/executor.(*BlockExecutor).setTimeoutRollback")
+	gtm := c.fn(rule, "internal/executor.(*BlockExecutor).getTimeoutIBTPsMap")
+	if pe == nil || str == nil || gtm == nil {
+		return
+	}
+	isCallTo := func(g *ssa.Function) InstrPred {
+		return func(in ssa.Instruction) bool {
+			call, ok := in.(ssa.CallInstruction)
+			return ok && core.StaticCallee(call) == g
+		}
+	}
+	n := c.mustPrecede(rule, "processExecuteEvent", pe, isCallTo(gtm), isCallTo(str), "getTimeoutIBTPsMap (reads the stored child statuses)", "setTimeoutRollback (overwrites them with BEGIN_ROLLBACK)")
+	c.R.Floor(rule, "status overwrites at expiry in processExecuteEvent", n, 1)
 }
